@@ -471,10 +471,12 @@ def _unescape_attribute(value: str) -> str:
             return chr(int(ref[2:], 16))
         elif ref.startswith('#'):
             return chr(int(ref[1:]))
-        return _XML_ENTITIES[ref]
+        # the DOCTYPE names an external DTD that is not read, so the
+        # parser skips references to entities it does not know
+        return _XML_ENTITIES.get(ref, '')
 
     value = re.sub(r'\r\n|[\t\n\r]', ' ', value)
-    return re.sub(r'&(#x[0-9a-fA-F]+|#[0-9]+|lt|gt|amp|quot|apos);', resolve, value)
+    return re.sub(r'&(#x[0-9a-fA-F]+|#[0-9]+|[^\s&;#<]+);', resolve, value)
 
 
 _Elem = dict[str, Any]  # basic type for the loaded XML data
